@@ -284,6 +284,11 @@ pub fn gen_node(prop: &str, kind: &str, profile: u8, tier: Tier, rng: &mut Rng, 
 }
 
 pub fn generate(prop: &str, tier: Tier, rng: &mut Rng, seed: u64, run: u64) -> Plan {
+    // one run in eight places the stateful streams inside a mixed graph under an arbitrary
+    // update schedule (W-stream proper)
+    if run % 8 == 7 && matches!(prop, "C04" | "C05" | "C10" | "C12") {
+        return crate::comb::gen_graph(prop, tier, rng, seed, run);
+    }
     match prop {
         "C04" => gen_node(prop, "pid", 1, tier, rng, seed, run),
         "C05" => {
